@@ -290,6 +290,14 @@ def desugar_for(src, loop, n, kind, ed, rules, where):
         ex = src.text[s[e0].start:s[e1 - 1].end]
         head = "let mut %s: usize = 0; let %s: usize = (%s).len(); while %s < %s " % (iv, hv, ex, iv, hv)
         bind = " let %s = &(%s)[%s]; %s += 1; " % (pat, ex, iv, iv)
+    elif kind == "vec":
+        # `for x in v` over a Vec<T> BY VALUE (the elements are moved out one by one): the loop std
+        # defines it to be, with std's vec::IntoIter written as the prelude stand-in VxVecIter
+        # (ASSUMED, A-std: `into_iter()` yields the vector's elements in order; prelude/vec_iter.rs)
+        ex = src.text[s[e0].start:s[e1 - 1].end]
+        qv = "vx_q%d" % n
+        head = "let mut %s = vx_vec_into_iter(%s); while %s.has_next() " % (qv, ex, qv)
+        bind = " let %s = %s.take_next(); " % (pat, qv)
     else:
         raise SpecError("%s: unknown desugar-for kind %r" % (where, kind))
     ed.replace(s[kw].start, s[lo_].start, head, 2)
